@@ -63,6 +63,19 @@ chk("C03",E2,"model_checking",
   "Inbound: every record of a catalogue (6 content types x 3 epochs x 4 payloads x 2 sources; every single-bit flip, truncation, re-addressing and epoch rewrite of a genuine record) injected at each of 5 stages into either endpoint (thorough: pairs), compared with the injection-free run. Outbound: every start order of 1-3 concurrent senders x 6 payload sizes, every emitted datagram checked (one record, encrypted, <= path limit, unique nonce, reassembles the payloads).",
   dtls_note + " Concurrent senders interleave at await-point granularity only.",
   "exhaustive injection enumeration over protocol stages with a differential (injection-free) oracle","DESIGN.md 4.3")
+
+chk("C06","E5-loopback","exploration",
+  "Full product USERNAME {none, wrong, right} x MESSAGE-INTEGRITY {absent, random, remote-pwd, third-key, bit-flipped, correct} x FINGERPRINT x USE-CANDIDATE x role attribute x source {known, stranger} x ICE state (5) x agent role on a real loopback IceTransport (fresh per case), all 160 single-bit flips of a correct HMAC, and 52 unsolicited responses with random / stale / live transaction ids; oracle = snapshot difference of remote candidates, selected pair, state and nomination watch.",
+  "Real UDP loopback and wall-clock timers; quiescence by an ordering barrier (authenticated no-op answered by the agent's sequential read loop); every violating signature is re-run alone three times before it is reported. Shared-UDP mux, TCP and TURN socket kinds are not reached.",
+  "exhaustive enumeration of the STUN credential x ICE-state lattice on a real IceTransport with a snapshot-difference oracle","DESIGN.md 4.6")
+chk("C09","E3-hist","model_checking",
+  "Explicit-state BFS by history replay on real PeerConnections with a real shadow peer: all call sequences over a 17-letter alphabet (create_offer/answer, set_local/set_remote of offer, changed offer, answer, pranswer, rollback, malformed and foreign-fingerprint descriptions, close) x modes {Rtp, Srtp, WebRtc} x starts {fresh, negotiated as offerer / answerer, really connected}, without dedup to depth d1 and with canonical-state dedup (merged pairs cross-checked) to d2; oracle = reference JSEP machine + failed calls leave every public observer unchanged.",
+  "Trusted: the canonical-state abstraction (cross-checked on all merged pairs up to d1); single-audio-section SDPs; the mid counter is not observable through the public API.",
+  "explicit-state search by history replay on real objects with a reference state machine and an atomicity oracle","DESIGN.md 4.9")
+chk("C14","E3-hist","model_checking",
+  "All operation sequences to depth 5 (quick) / 6 (thorough) over a 15-op alphabet (install keys, send_rtp, raw send, send_rtcp, sync BYE, receive clear / protected / wrong-key RTP and RTCP, bridge to keyed / unkeyed target, clear bridge, close) on a real SRTP-mandatory RtpTransport with two bridge targets on in-memory sockets, for 2-3 profiles; every captured datagram must authenticate under webrtc-srtp with the emitter's keys, nothing may be emitted before keys exist, nothing unauthenticated may reach listeners / observers / the bridged peer.",
+  "Trusted: webrtc-srtp 0.17 as reference (its AES-CM SRTCP path needs the E bit checked first, see evidence assumptions). Operation-granularity interleavings only.",
+  "explicit-state history enumeration on real transports judged against an independent SRTP implementation","DESIGN.md 4.14")
 todo = {p: "check under construction in this round (DESIGN.md section 8 build order); not yet claimed" for p in props if p not in C}
 m = {"version": 1,
  "setup_cmd": "cd /verif/harness && CARGO_NET_OFFLINE=true cargo build --release --offline --workspace",
@@ -72,7 +85,8 @@ m = {"version": 1,
  "engines": [
   {"name":"E1-loom","path":"harness/h_loom","serves_properties":["C20"],"kind_free_text":"loom DPOR over the repository's spsc.rs/track.rs included textually with shadowed primitives"},
   {"name":"E2-sim","path":"harness/vh/src/{sim,sctp_sim,sctp_props,dtls_sim,explorer,wire}.rs + bin/{c02,c03,c11}.rs","serves_properties":["C01","C02","C03","C11","C12","C13"],"kind_free_text":"deterministic two-endpoint simulator (real IceConn/DTLS/SCTP on an in-memory socket, paused tokio clock, seeded RNG) under a deviation-bounded fault explorer"},
-  {"name":"E3-hist","path":"harness/vh/src/bin/{c05,c18}.rs","serves_properties":["C05","C18"],"kind_free_text":"explicit-state search over operation histories replayed on fresh real objects"},
+  {"name":"E5-loopback","path":"harness/vh/src/bin/c06.rs","serves_properties":["C06"],"kind_free_text":"finite lattices of configurations / credentials / crash points on real loopback sockets, thrice-confirmed"},
+  {"name":"E3-hist","path":"harness/vh/src/bin/{c05,c09,c14,c18}.rs","serves_properties":["C05","C09","C14","C18"],"kind_free_text":"explicit-state search over operation histories replayed on fresh real objects"},
   {"name":"E4-enum","path":"harness/vh/src/bin/{c04,c15,c16}.rs","serves_properties":["C04","C15","C16"],"kind_free_text":"complete enumeration of bounded input spaces against reference models / independent implementations"}],
  "checks": [C[p] for p in props if p in C],
  "not_applicable": [{"property_id": p, "reason": r} for p, r in todo.items()],
